@@ -16,7 +16,7 @@ from ase.calculators.emt import EMT
 from ase.constraints import FixAtoms, FixCom
 from ase.units import kB
 
-from calcs import CountingEMT, CountingLJ, Harmonic, PairRebuild, TableCalc, fresh_like
+from calcs import CountingEMT, CountingLJ, Harmonic, PairRebuild, TableCalc, fresh_like, new_like
 from qrec import RecCell, RecDisp, RecExch, RecHam
 
 from quansino.integrators.displacement import Verlet
@@ -159,6 +159,40 @@ def attach_veto(sc, move, p=0.5):
 
 def maybe_logfile(rs):
     return io.StringIO() if rs.rand() < 0.5 else None
+
+
+def restart_prologue(sc, warm):
+    """The recorded run starts from a simulation rebuilt the documented way: (a few unrecorded steps,) to_dict, JSON
+    round trip, from_dict, a FRESH calculator attached.  The rebuilt simulation knows its reference energy but its
+    calculator has no results yet."""
+    from ase.io.jsonio import decode, encode
+
+    from project import elementary_moves
+
+    old = sc.mc
+    if warm and not isinstance(old.atoms.calc, TableCalc) and not (sc.meta["family"] == "gc" and getattr(old.atoms.calc, "style", "") == "internal"):
+        old.run(warm)  # (a rejected exchange leaves a calculator with per-atom internal state unusable: known finding)
+    else:
+        old.validate_simulation()
+    data = decode(encode(old.to_dict()))
+    new = type(old).from_dict(data)
+    new.atoms.calc = new_like(old.atoms.calc)
+    veto_of = {id(m): v for m, v in sc.vetoes}
+    sc.vetoes = []
+    done = set()
+    for name in old.moves:
+        for mo, mn in zip(elementary_moves(old.moves[name].move), elementary_moves(new.moves[name].move)):
+            if id(mo) in veto_of and id(mn) not in done:
+                mn.check_move = veto_of[id(mo)]
+                mn.max_attempts = 3
+                sc.vetoes.append((mn, veto_of[id(mo)]))
+                done.add(id(mn))
+    try:
+        old.close()
+    except Exception:  # noqa: BLE001
+        pass
+    sc.mc = new
+    sc.meta["restarted"] = True
 
 
 def build(seed: int, family: str | None = None) -> Scenario:
@@ -327,6 +361,9 @@ def build(seed: int, family: str | None = None) -> Scenario:
     sc.mc = mc
     calc = mc.atoms.calc
     sc.fresh = lambda c=calc: fresh_like(c)
+    sc.meta["restarted"] = False
+    if rs.rand() < 0.25:
+        restart_prologue(sc, warm=int(rs.randint(0, 3)))
     sc.meta["calc"] = type(calc).__name__
     sc.meta["calcStyle"] = getattr(calc, "style", "?")
     sc.steps = int(rs.randint(3, 9))
